@@ -50,7 +50,8 @@ def run_one(prop: str, shard: Dict[str, Any], timeout: float, workdir: str) -> D
     with open(fn + ".in.json", "w") as f:
         json.dump(shard, f)
     env = dict(os.environ)
-    env["PYTHONPATH"] = ROOT + os.pathsep + os.path.join(ROOT, ".deps") + os.pathsep + env.get("PYTHONPATH", "")
+    pre = (os.environ["JMON_REPO"] + os.pathsep) if os.environ.get("JMON_REPO") else ""
+    env["PYTHONPATH"] = pre + ROOT + os.pathsep + os.path.join(ROOT, ".deps") + os.pathsep + env.get("PYTHONPATH", "")
     env["PYTHONHASHSEED"] = "0"
     env["JUMANJI_VERIF"] = "1"
     env.setdefault("JAX_PLATFORMS", "cpu")
